@@ -212,11 +212,12 @@ Submit(b, tg) ==
   /\ LET g == Attr[b].tsg
          \* the counter is volatile, the store is not: a number under which a bundle of this source and time is stored is skipped
          taken == {st[x].seq : x \in {y \in Cat : st[y].known /\ Attr[y].origin = "app" /\ Attr[y].tsg = g /\ g # 0}}
-         sq == CHOOSE k \in idk[g]..(idk[g] + Cardinality(Cat)) : k \notin taken /\ \A j \in idk[g]..(k - 1) : j \in taken
+         \* (group 0 = no group: a creation time of its own, the first number)
+         sq == IF g = 0 THEN 0 ELSE CHOOSE k \in idk[g]..(idk[g] + Cardinality(Cat)) : k \notin taken /\ \A j \in idk[g]..(k - 1) : j \in taken
          w0 == [World EXCEPT !.st[b] = [known |-> TRUE, pending |-> FALSE, sent |-> {}, seq |-> sq]]
          w1 == Notify(w0, b)
      IN /\ tg \in Choices(w1, b)
-        /\ idk' = [idk EXCEPT ![g] = sq + 1]
+        /\ idk' = IF g = 0 THEN idk ELSE [idk EXCEPT ![g] = sq + 1]
         /\ Commit(Dispatch(w1, b, tg), [act |-> "Submit", b |-> b, tg |-> tg, choices |-> [x \in {b} |-> Choices(w1, b)]])
   /\ UNCHANGED <<up, failing, own, peerv, nbr, table, via, late>>
 
@@ -234,6 +235,25 @@ Receive(b, tg) ==
                   IN /\ tg \in Choices(w3, b)
                      /\ Commit(Dispatch(w3, b, tg), [act |-> "Receive", b |-> b, tg |-> tg, choices |-> [x \in {b} |-> Choices(w3, b)]])
   /\ UNCHANGED <<up, failing, own, peerv, nbr, table, via, idk, used, late>>
+
+(* a bundle arrives from a peer at the very moment the application submits another one: the two are handled by different
+   goroutines of the node (Core.handler and the AgentManager's) that share the store. Both bundles are accepted; the outcome is
+   that of handling one after the other (they do not touch each other's records). Restricted to plain bundles (no tsg group, no
+   unsupported blocks) whose transmissions, if any, are determined. *)
+Race(br, bs, tgr, tgs) ==
+  /\ Go("Race") /\ Attr[br].origin \in up /\ ~st[br].known /\ ~Attr[br].hasunk
+  /\ Attr[bs].origin = "app" /\ bs \notin used /\ Attr[bs].tsg = 0
+  /\ used' = used \cup {bs}
+  /\ LET r0 == [World EXCEPT !.st[br] = [known |-> TRUE, pending |-> FALSE, sent |-> {}, seq |-> 0]]
+         r1 == Notify(ReportIf(r0, br, "rcpt", "received", "none"), br)
+         r2 == Dispatch(r1, br, tgr)
+         s0 == [r2 EXCEPT !.st[bs] = [known |-> TRUE, pending |-> FALSE, sent |-> {}, seq |-> 0]]
+         s1 == Notify(s0, bs)
+     IN /\ tgr \in Choices(r1, br) /\ Cardinality(Choices(r1, br)) = 1
+        /\ tgs \in Choices(s1, bs) /\ Cardinality(Choices(s1, bs)) = 1
+        /\ UNCHANGED idk
+        /\ Commit(Dispatch(s1, bs, tgs), [act |-> "Race", b |-> br, d |-> bs, choices |-> [x \in {br, bs} |-> IF x = br THEN Choices(r1, br) ELSE Choices(s1, bs)]])
+  /\ UNCHANGED <<up, failing, own, peerv, nbr, table, via, late>>
 
 PeerUp(p, pick) ==
   /\ Go("PeerUp") /\ p \notin up
@@ -305,6 +325,7 @@ Learn(p) ==
 
 Next ==
   \/ \E b \in Cat, tg \in SUBSET Peers : Submit(b, tg) \/ Receive(b, tg)
+  \/ \E br, bs \in Cat, tgr, tgs \in SUBSET Peers : Race(br, bs, tgr, tgs)
   \/ \E p \in Peers : PeerDown(p) \/ (\E v \in BOOLEAN : SetFail(p, v))
   \/ \E p \in Peers : \E pick \in [PendingSet(World) -> SUBSET Peers] : PeerUp(p, pick)
   \/ \E pick \in [PendingSet(World) -> SUBSET Peers] : RetryTick(pick)
